@@ -26,6 +26,7 @@ func main() {
 	tier := flag.String("tier", "quick", "quick or thorough")
 	repo := flag.String("repo", "/repo", "repository working tree")
 	verif := flag.String("verif", "/verif", "verification directory (evidence, known findings)")
+	controls := flag.String("controls", "", "directory of the control packages (default <verif>/controls)")
 	quiet := flag.Bool("q", false, "do not print discharged obligations")
 	list := flag.Bool("list", false, "list implemented properties")
 	flag.Parse()
@@ -48,6 +49,9 @@ func main() {
 	}
 	r := report.New(*prop, *tier, c.level, *verif)
 	r.Quiet = *quiet
+	if *controls != "" {
+		r.ControlsDir = *controls
+	}
 	code := func() (code int) {
 		defer func() {
 			if e := recover(); e != nil {
